@@ -19,6 +19,7 @@ List(vs) == A("list", vs, 0, 0, -1)
 
 ArgsCore == {Sign(<<1>>, 1, 0, 1), Sign(<<1>>, 1, 0, 2), Fetch(<<>>)}
 ArgsTwoFr == {Sign(<<1>>, 1, 0, 1), Sign(<<1>>, 2, 0, 2), Fetch(<<>>)}
+ArgsTwoFrOnly == {Sign(<<1>>, 1, 0, 1), Sign(<<1>>, 2, 0, 2)}
 ArgsNow == {Sign(<<1>>, 1, 0, -1), Sign(<<1>>, 2, 2, -1), Fetch(<<1>>)}
 ArgsGas == {Sign(<<1>>, 1, 2, 1), Sign(<<1>>, 1, 0, 1), Sign(<<1>>, 2, 0, 2), Fetch(<<>>)}
 ArgsTwo == {Sign(<<1, 2>>, 1, 0, 1), Sign(<<2>>, 2, 0, 1), Fetch(<<>>), Fetch(<<2>>)}
@@ -64,6 +65,7 @@ Tamper(kind, R, st) ==
 TNone == {}
 TAll == {"dropsig", "flipq", "unq", "emptyq", "shift", "rev", "all", "alldesc", "older", "empty"}
 TSig == {"dropsig", "flipq", "shift", "emptyq"}
+TDesc == {"alldesc"}
 TGroups == {"rev", "all", "alldesc", "older", "unq", "empty"}
 
 \* overrides files that appear in an operator's directory: <<o, file, shares per entry>>
